@@ -1,6 +1,7 @@
 """C07 — row-stream codec: round trips over the type universe; every single-bit flip and every
 truncation point of small streams (exhaustive per stream); random bursts on larger ones."""
 PID = "C07"
+CASE_LIMIT = {"C07": 15}   # seconds: these cases are function calls, not sessions
 PARALLEL = {"C07": 8}
 RULE = ("round trips: random streams of 0..6 batches (0..9 rows, incl. empty batches) over 1-3 columns of the kind universe "
         "(built-in ints/floats/strings/bytes/bools, gob structs with some or all fields zero, pointers, slices, arrays, maps, a "
